@@ -155,9 +155,15 @@ def lean_gate(modules, need_driver=True):
 
 
 def _lean_gate(modules, need_driver=True):
-    targets = list(modules) + (["driver"] if need_driver else [])
-    ok, log = lake_build(targets)
-    info = {"build_ok": ok, "build_log_tail": log[-1500:] if not ok else ""}
+    drv_ok = True
+    if need_driver:
+        drv_ok, dlog = lake_build(["driver"])
+    ok, log = lake_build(list(modules))
+    # build_ok: the executable model is available, so the correspondence / failing-input search can run
+    info = {"build_ok": drv_ok, "build_log_tail": log[-1500:] if not ok else ""}
+    if not drv_ok:
+        ok = False
+        log = dlog
     if not ok:
         info.update({"obligations": sum(len(theorem_names(m)) for m in modules), "discharged": 0,
                      "failures": ["lake build failed: " + log[-600:]], "axioms_seen": [], "theorems": []})
